@@ -492,7 +492,7 @@ def provider_spec(draw, maxmods: int):
             candidates = [None] + [i for i, c in enumerate(classes) if c['alias'] != calias or calias is None]
             base = draw(st.sampled_from(candidates))
             base = draw(st.sampled_from([None, base, base]))
-            impl = draw(st.sampled_from(['concrete', 'concrete', 'concrete', 'abstract', 'abstract', 'inherit']))
+            impl = draw(st.sampled_from(['concrete', 'concrete', 'concrete', 'abstract', 'abstract', 'inherit', 'inner-abstract']))
             alias = None
             concrete = impl == 'concrete' or (impl == 'inherit' and base is not None and not _unimplemented(classes, base))
             if concrete and aliases and draw(st.integers(0, 3)) > 0:
@@ -514,9 +514,13 @@ def provider_spec(draw, maxmods: int):
 def _unimplemented(classes, idx) -> set:
     """Names of the abstract methods still open on class ``idx`` (the root interface contributes 'work')."""
     c = classes[idx]
-    inherited = {'work'} if c['base'] is None else _unimplemented(classes, c['base'])
+    inherited = {'work'} if c['base'] is None else _unimplemented(classes, c['base']) - {'<inner>'}
     if c['impl'] == 'concrete':
         return set()
+    if c['impl'] == 'inner-abstract':
+        # implements every method but declares an abstract *inner* class: abstract by forml's documented notion
+        # (provider.isabstract "also considers any inner classes"); not inherited by subclasses
+        return {'<inner>'}
     if c['impl'] == 'abstract':
         return inherited | {f"am_{c['name']}"}
     return inherited
@@ -561,8 +565,10 @@ def render_module(case: str, spec, mi: int) -> str:
         lines += [f"{ind}class {c['name']}({base}{kw}):", f"{ind}    MARK = {c['name']!r}"]
         if c['impl'] == 'abstract':
             lines += [f'{ind}    @abc.abstractmethod', f"{ind}    def am_{c['name']}(self):", f'{ind}        ...']
-        elif c['impl'] == 'concrete':
-            inherited = {'work'} if c['base'] is None else _unimplemented(classes, c['base'])
+        elif c['impl'] in ('concrete', 'inner-abstract'):
+            if c['impl'] == 'inner-abstract':
+                lines += [f'{ind}    class Inner(abc.ABC):', f'{ind}        @abc.abstractmethod', f'{ind}        def open(self):', f'{ind}            ...']
+            inherited = {'work'} if c['base'] is None else _unimplemented(classes, c['base']) - {'<inner>'}
             for meth in sorted(inherited | {'work'}):
                 lines += [f'{ind}    def {meth}(self):', f"{ind}        return {c['name']!r}"]
     return '\n'.join(lines) + '\n'
